@@ -17,19 +17,23 @@ U64 = (1 << 64) - 1
 def key_layout(ctx):
     fn = ctx.fb.fn(CAK)
     ctx.touch(fn)
-    pl = layout.placements(fn, 'key')
+    acc = layout.accumulator(fn)
+    if acc is None:
+        raise AnalysisBroken('C15: key accumulator of createAnswerKey not found')
+    pl = layout.placements(fn, acc)
     fields = {}
     for p in pl:
         if isinstance(p['shift'], int):
             fields[p['src']] = p
-    fold = layout.fold_schedule(fn, 'exp')
+    fold = layout.fold_schedule(fn, layout.fold_counter(fn, acc) or 'exp')
+    pn = [p['name'] for p in fn.params]
     try:
         lay = {
-            'len': fields['idLen']['shift'],
+            'len': fields[pn[5]]['shift'],
             'src': [p for p in pl if 'getMasterNumber' in p['src']][0]['shift'],
-            'dst': fields['dstAddress']['shift'],
-            'pb': fields['pb']['shift'],
-            'sb': fields['sb']['shift'],
+            'dst': fields[pn[1]]['shift'],
+            'pb': fields[pn[2]]['shift'],
+            'sb': fields[pn[3]]['shift'],
             'fold_init': fold['init'],
         }
     except (KeyError, IndexError):
@@ -47,10 +51,9 @@ def r1(ctx):
     if len(sites) < 2:
         raise AnalysisBroken('C15.R1: expected >= 2 call sites of createAnswerKey, found %d' % len(sites))
     hull = None
-    pidx = [i for i, p in enumerate(fn.params) if p['name'] == 'idLen']
-    if not pidx:
-        raise AnalysisBroken('C15.R1: parameter idLen of createAnswerKey not found')
-    pidx = pidx[0]
+    pidx = 5
+    if len(fn.params) < 6:
+        raise AnalysisBroken('C15.R1: createAnswerKey no longer has an ID length parameter')
     for f, c in sites:
         arg = f.nodes[c]['args'][pidx]
         b = common.Bounds(f)
@@ -76,7 +79,7 @@ def r1(ctx):
                 qs.append((rhs, rv['rhs'], p))
     if not qs:
         raise AnalysisBroken('C15.R1: fold shift in createAnswerKey not found')
-    b = common.Bounds(fn, param_ranges={'idLen': hull or (0, 2 ** 64 - 1)})
+    b = common.Bounds(fn, param_ranges={fn.params[5]['name']: hull or (0, 2 ** 64 - 1)})
     r = b.at([(q[0], q[1]) for q in qs])
     for i, q in enumerate(qs):
         if i not in r:
@@ -108,6 +111,12 @@ def r2(ctx):
     ctx.touch(ga)
     src_mask = (0x1f << lay['src']) & U64
     len_mask = (0x07 << lay['len']) & U64
+    kname = None
+    for nid, d, rhs, op, lhs in ga.assignments():
+        if rhs is not None and 'createAnswerKey(' in ga.key(rhs) and d:
+            kname = d.split(':')[-1]
+    if kname is None:
+        raise AnalysisBroken('C15.R2: the lookup key variable of getAnswer was not recognised')
     # (a) source wildcard: somewhere the lookup key is and-ed with a constant that clears exactly the source field
     masks = []
     for nid, v in sorted(ga.nodes.items()):
@@ -115,7 +124,7 @@ def r2(ctx):
             for side in ('lhs', 'rhs'):
                 m = ga.val(v[side])
                 other = v['rhs' if side == 'lhs' else 'lhs']
-                if m is not None and 'key' in ga.key(other).lower() and bin(m & U64).count('0') <= 8 + 2 and \
+                if m is not None and kname in ga.key(other) and bin(m & U64).count('0') <= 8 + 2 and \
                         ((m & U64) | src_mask) == U64 and (m & U64) != U64:
                     masks.append((nid, m & U64))
     if not masks:
@@ -125,7 +134,8 @@ def r2(ctx):
         ctx.ob('C15.R2', ga, nid, ok, 'source wildcard lookup mask',
                'mask %#x, expected ~(0x1f << %d) = %#x' % (m, lay['src'], ~src_mask & U64))
     # (b) the reduce step: key = (key & ~lenmask & ~(0xff << 8*(fold_init - len))) | (len << lenshift)
-    red = [(nid, rhs) for nid, d, rhs, op, lhs in ga.assignments() if d and d.endswith(':key') and op == '=' and rhs is not None]
+    red = [(nid, rhs) for nid, d, rhs, op, lhs in ga.assignments() if d and d.endswith(':' + kname) and op == '=' and rhs is not None and
+           'createAnswerKey(' not in ga.key(rhs)]
     if not red:
         raise AnalysisBroken('C15.R2: key reduction assignment not found in getAnswer')
     for nid, rhs in red:
@@ -157,13 +167,15 @@ def r2(ctx):
     for nid, v in sorted(ha.nodes.items()):
         if v['k'] == 'BinaryOperator' and v.get('op') == '==' or (v['k'] == 'BinaryOperator' and v.get('op') == '!='):
             ks = (ha.key(v['lhs']), ha.key(v['rhs']))
-            if 'dstAddress' not in ks:
+            dstn = ha.params[0]['name']
+            if dstn not in ks:
                 continue
-            other = ks[0] if ks[1] == 'dstAddress' else ks[1]
+            other = ks[0] if ks[1] == dstn else ks[1]
             n += 1
-            good = ('((answer.first >> #%d) & #255)' % lay['dst'], '(#255 & (answer.first >> #%d))' % lay['dst'])
-            trunc = '(ebusd::symbol_t)(answer.first >> #%d)' % lay['dst']
-            ok = other in good or other.endswith(trunc) or other == trunc
+            import re
+            ok = bool(re.match(r'^\(\((\w+)\.first >> #%d\) & #255\)$' % lay['dst'], other)) or \
+                bool(re.match(r'^\(#255 & \((\w+)\.first >> #%d\)\)$' % lay['dst'], other)) or \
+                bool(re.match(r'^\(ebusd::symbol_t\)\((\w+)\.first >> #%d\)$' % lay['dst'], other))
             ctx.ob('C15.R2', ha, nid, ok, 'destination extraction in hasAnswer',
                    'compares %s with dstAddress; the key also holds source (bits %d..) and length (bits %d..) above the '
                    'destination byte, so the byte must be isolated' % (other, lay['src'], lay['len']))
@@ -187,8 +199,9 @@ def r3(ctx):
             if l.get('k') == 'CXXOperatorCallExpr' and l.get('op') == '[]' and fn.key(l['args'][0]) == 'this.m_answerByKey':
                 n += 1
                 atoms = set((a[0], a[1]) for a in fn.atoms(nid))
-                need = [('this.m_config.answer', True), ('(idLen <= #4)', True),
-                        ('ebusd::isValidAddress(dstAddress,#0)', True)]
+                pn = [p['name'] for p in fn.params]
+                need = [('this.m_config.answer', True), ('(%s <= #4)' % pn[5], True),
+                        ('ebusd::isValidAddress(%s,#0)' % pn[1], True)]
                 missing = [a for a in need if a not in atoms]
                 ctx.ob('C15.R3', fn, nid, not missing, 'store into m_answerByKey',
                        'missing guard(s): %s' % missing if missing else 'guarded by %s' % need)
@@ -239,7 +252,7 @@ def r5(ctx):
     ga = fb.fn('ebusd::DirectProtocolHandler::getAnswer')
     src_mask = (0x1f << lay['src']) & U64
     red = [nid for nid, d, rhs, op, lhs in ga.assignments() if op == '=' and rhs is not None and
-           ('<< #%d' % lay['len']) in ga.key(rhs) and 'key' in (d or '').lower()]
+           ('<< #%d' % lay['len']) in ga.key(rhs) and 'createAnswerKey(' not in ga.key(rhs)]
     if not red:
         raise AnalysisBroken('C15.R5: key reduction not found in getAnswer')
     loops = ga.all('DoStmt', 'WhileStmt', 'ForStmt')
